@@ -61,7 +61,9 @@ class SpanFile:
     `origin` identifies the filesystem instance the bytes come from (two products may hold files of the same name)."""
 
     def __init__(self, size, log, tag=None, origin=None):
-        self.size, self.pos, self.log, self.tag = size, 0, log, tag
+        # only what every binary file object offers (io.RawIOBase: read / seek / tell / close / context manager): the byte count is private
+        # - fsspec files of some filesystems (tar://, custom ones returning BytesIO) have no `.size`
+        self._nbytes, self.pos, self.log, self.tag = size, 0, log, tag
         self.origin = origin
         self.closed = False
 
@@ -76,8 +78,8 @@ class SpanFile:
         return self.pos
 
     def read(self, n=-1):
-        lo = min(self.pos, self.size)
-        hi = self.size if (n is None or n < 0) else min(self.pos + n, self.size)
+        lo = min(self.pos, self._nbytes)
+        hi = self._nbytes if (n is None or n < 0) else min(self.pos + n, self._nbytes)
         self.log.append(("read", self.tag, self.pos, n))
         self.pos = hi
         sp = Span(lo, hi, self.tag)
